@@ -8,7 +8,9 @@ IMG = open(os.path.join(ASSETS, "i.png"), "rb").read() if os.path.exists(os.path
 METAS = [b"", b"Title: Plain title\n\n", b"Title: T & <x> \"q\"\nAuthor: A & B <c>\n\n", b"Title: t\nCSS: a.css\n\n", b"Title: t\nuuid: 1234\ndate: 2020-02-02\nlanguage: de\n\n"]
 HEADS = [b"", b"# One\n\n", b"# One\n\n## Two\n\n### Three & <more>\n\n# Four\n\n"]
 IMAGES = [b"", b"text ![alt](i.png) more\n\n", b"![fig](f.png \"Title\")\n\n", b"![m](missing.png) x\n\n", b"![r](http://example.com/r.png) x\n\n", b"![a](i.png) ![b](i.png) ![c][ref]\n\n[ref]: f.png width=10px\n\n",
-          b"![alt](i.png \"with title\") x\n\n"]
+          b"![alt](i.png \"with title\") x\n\n",
+          # several assets whose names differ in length, extension length and directory
+          b"![p](photo.jpeg) then ![i](i.png) and ![n](noext)\n\n", b"![i](i.png) ![d](sub/deep.gif) ![p](photo.jpeg) ![f](f.png)\n\n"]
 TAILS = [b"", b"para *e* `c` [l](http://u/?a=1&b=2)\n\n{{TOC}}\n\n| a | b |\n|---|---|\n| c | d |\n\n[^f]: note\n\ntext[^f]\n"]
 FORMATS = [("epub", 1), ("odt", 6), ("bundlezip", 8), ("itmz", 10)]
 
@@ -116,6 +118,9 @@ def check_archive(fname, data, doc, directory, ext, v, case_d):
             e = xml_err(z.read("mapdata.xml"))
             if e: v.append((sig("mapdata-not-well-formed"), e, case_d))
 
+SOURCE_FILES = set()
+for _d, _sub, _fs in os.walk(ASSETS):
+    for _f in _fs: SOURCE_FILES.add(open(os.path.join(_d, _f), "rb").read())
 def check_assets(fname, z, names, prefix, refs, doc, directory, v, case_d):
     for r in set(refs):
         member = prefix + r.decode()
@@ -123,13 +128,24 @@ def check_assets(fname, z, names, prefix, refs, doc, directory, v, case_d):
         # which source file is it?  local images that exist in the directory must be stored with identical bytes
         if present:
             data = z.read(member)
-            if directory and data not in (IMG, open(os.path.join(ASSETS, "a.css"), "rb").read()):
+            if directory and data not in SOURCE_FILES:
                 v.append(("package:%s:asset-bytes" % fname, "asset %s does not hold the bytes of a source file" % member, case_d))
     if directory:
-        want = len(set(re.findall(rb"\((i\.png|f\.png)", doc) + re.findall(rb"\]: (f\.png)", doc))) + (1 if b"CSS: a.css" in doc and fname != "odt" else 0)
-        have = len([n for n in names if (n.startswith(prefix + "assets/") or n.startswith("Pictures/")) and not n.endswith("/")])
-        if have < min(want, 1) or (want and have == 0):
-            v.append(("package:%s:local-asset-not-stored" % fname, "the document references %d existing local file(s) but the archive stores %d" % (want, have), case_d))
+        # every readable local file the document refers to must be stored (same bytes), every reference must resolve, nothing else is stored
+        urls = re.findall(rb'!\[[^\]]*\]\(([^) "]+)', doc) + re.findall(rb'(?m)^\[[^\]^#?>][^\]]*\]:[ \t]*<?([^ \t\n>]+)', doc)
+        if fname != "odt": urls += re.findall(rb"(?mi)^css:[ \t]*(\S+)", doc.split(b"\n\n", 1)[0])
+        dpath = directory.decode() if isinstance(directory, bytes) else directory
+        local = sorted({u for u in urls if b"://" not in u and os.path.isfile(os.path.join(dpath, u.decode("latin-1")))})
+        want_bytes = sorted({open(os.path.join(dpath, u.decode("latin-1")), "rb").read() for u in local})
+        stored = [n for n in names if (n.startswith(prefix + "assets/") or n.startswith("Pictures/")) and not n.endswith("/")]
+        have_bytes = sorted({z.read(n) for n in stored})
+        if local and not stored:
+            v.append(("package:%s:local-asset-not-stored" % fname, "the document references %d existing local file(s) but the archive stores none" % len(local), case_d))
+        elif have_bytes != want_bytes:
+            v.append(("package:%s:stored-assets-differ-from-referenced-files" % fname, "the archive stores %d distinct asset contents, the document references %d distinct readable files (%s)" % (len(have_bytes), len(want_bytes), b", ".join(local).decode("latin-1")), case_d))
+        dangling = [r.decode() for r in set(refs) if (prefix + r.decode()) not in names]
+        if dangling and local and len(dangling) > len([u for u in urls if u not in local]):
+            v.append(("package:%s:reference-to-missing-member" % fname, "the content references %s, not in the archive" % ", ".join(dangling), case_d))
 
 def sources():
     out = []
